@@ -350,7 +350,20 @@ pub fn build(family: &str, tier: Tier) -> Vec<Cfg> {
                     out.push(c);
                 }
             }
+            for (first, second) in [(None, Some(1u16)), (Some(2u16), Some(0u16)), (Some(0u16), Some(3u16))] {
+                let mut c = Cfg::base("keepalive", &format!("server-ka-by-conn-{:?}-{:?}", first, second));
+                c.keep_alive = Some(5);
+                c.connack_by_conn = vec![ConnackTemplate { server_keep_alive: first, ..Default::default() }, ConnackTemplate { server_keep_alive: second, ..Default::default() }];
+                c.ping_timeout = Duration::from_millis(1000);
+                c.submits = vec![spec("pub1", publish("t", 1))];
+                c.max_submits = 1; c.max_conns = 2; c.budget = 2; c.max_depth = 22;
+                c.allow.close = true; c.allow.tick_before = true;
+                c.session_answers = vec![true];
+                c.clock = Clock::Prompt;
+                out.push(c);
+            }
         }
+        "keepalive-extra" => {}
         "offline" => {
             for policy in ALL_POLICIES {
                 for v311 in [false, true] {
@@ -395,6 +408,24 @@ pub fn build(family: &str, tier: Tier) -> Vec<Cfg> {
                         c.session_answers = vec![true, false];
                         out.push(c);
                     }
+                }
+            }
+            // the server announces a different Topic Alias Maximum on the second connection
+            for (first, second) in [(2u16, 1u16), (1, 2), (2, 0)] {
+                for resolver in [ResolverKind::Lru(2), ResolverKind::Manual] {
+                    if !thorough && resolver == ResolverKind::Manual && first != 2 { continue; }
+                    let mut c = Cfg::base("alias", &format!("max-by-conn-{}-{}-{:?}", first, second, resolver));
+                    c.resolver = resolver;
+                    c.connack_by_conn = vec![ConnackTemplate { topic_alias_maximum: Some(first), ..Default::default() }, ConnackTemplate { topic_alias_maximum: Some(second), ..Default::default() }];
+                    let aliased = |topic: &str, alias: Option<u16>, qos: u8| Pkt::Publish(VPublish { topic: topic.into(), qos, topic_alias: alias, ..Default::default() });
+                    c.submits = vec![spec("t1", aliased("t1", Some(1), 0)), spec("t2", aliased("t2", Some(2), 1)), spec("t1-again", aliased("t1", Some(1), 0))];
+                    c.max_submits = if thorough { 4 } else { 3 };
+                    c.max_conns = 2;
+                    c.budget = 1;
+                    c.max_depth = 26;
+                    c.allow.close = true;
+                    c.session_answers = vec![true, false];
+                    out.push(c);
                 }
             }
             // QoS2 publishes under an LRU resolver whose working set exceeds the alias maximum (the PUBREL of a publish whose alias was recycled)
